@@ -982,7 +982,12 @@ def degree_elevation(degree, ctrlpts, **kwargs):
 
     # Initialize variables
     num_pts_elev = degree + 1 + num
-    pts_elev = [[0.0 for _ in range(len(ctrlpts[0]))] for _ in range(num_pts_elev)]
+    is_row = isinstance(ctrlpts[0][0], (list, tuple))  # rows of points (surfaces, volumes)
+    if is_row:
+        pts_elev = [[[0.0 for _ in range(len(ctrlpts[0][0]))] for _ in range(len(ctrlpts[0]))]
+                    for _ in range(num_pts_elev)]
+    else:
+        pts_elev = [[0.0 for _ in range(len(ctrlpts[0]))] for _ in range(num_pts_elev)]
 
     # Compute control points of degree-elevated 1-dimensional shape
     for i in range(0, num_pts_elev):
@@ -991,7 +996,11 @@ def degree_elevation(degree, ctrlpts, **kwargs):
         for j in range(start, end + 1):
             coeff = linalg.binomial_coefficient(degree, j) * linalg.binomial_coefficient(num, (i - j))
             coeff /= linalg.binomial_coefficient((degree + num), i)
-            pts_elev[i] = [p1 + (coeff * p2) for p1, p2 in zip(pts_elev[i], ctrlpts[j])]
+            if is_row:
+                pts_elev[i] = [[p1 + (coeff * p2) for p1, p2 in zip(r1, r2)]
+                               for r1, r2 in zip(pts_elev[i], ctrlpts[j])]
+            else:
+                pts_elev[i] = [p1 + (coeff * p2) for p1, p2 in zip(pts_elev[i], ctrlpts[j])]
 
     # Return computed control points after degree elevation
     return pts_elev
